@@ -242,8 +242,16 @@ func (eq *externalBaseQueue) Worker() Worker {
 }
 
 func (eq *externalBaseQueue) Purge() {
-	prevValues := eq.q.Values()
-	eq.q.Purge()
+	var prevValues []any
+
+	// A job enqueued between Values and Purge would be removed without being closed: its
+	// waiters would never be released. The built-in queues hand over their content atomically.
+	if d, ok := eq.q.(interface{ Drain() []any }); ok {
+		prevValues = d.Drain()
+	} else {
+		prevValues = eq.q.Values()
+		eq.q.Purge()
+	}
 
 	// close all pending channels to avoid routine leaks
 	for _, val := range prevValues {
